@@ -107,7 +107,9 @@ func (rc *RecoveryConsumer) BuildConfigMapV(config map[string]string) (*kafka.Co
 }
 
 // AssignedPartitionsV returns the partitions last passed to SetAssignedPartitions.
-func (rc *RecoveryConsumer) AssignedPartitionsV() []kafka.TopicPartition { return rc.assignedPartitions }
+func (rc *RecoveryConsumer) AssignedPartitionsV() []kafka.TopicPartition {
+	return rc.assignedPartitions
+}
 
 // ActiveV returns partition -> (fromOffset, toOffset) of the partitions under active recovery.
 func (rc *RecoveryConsumer) ActiveV() map[int32][2]int64 {
@@ -135,7 +137,9 @@ func (rc *RecoveryConsumer) SetUpdateEveryV(n int64) { rc.updateRequestEvery = n
 func (rc *RecoveryConsumer) UpdateEveryV() int64 { return rc.updateRequestEvery }
 
 // ReceiveRequestV calls receiveRequest.
-func (rt *RecoveryTracker) ReceiveRequestV(key string, payload []byte) { rt.receiveRequest(key, payload) }
+func (rt *RecoveryTracker) ReceiveRequestV(key string, payload []byte) {
+	rt.receiveRequest(key, payload)
+}
 
 // CancelAllV calls cancelAll.
 func (rt *RecoveryTracker) CancelAllV() error { return rt.cancelAll() }
